@@ -23,7 +23,7 @@ EXPLANATION = (
     "literal shape) and the value of the 6 upper-case digits of hex2html all denote the same colour (also as the second conversion after an arbitrary 3-/6-digit code in the same process), that 3-digit codes equal the digit-doubled "
     "6-digit code, and that hex2html's characters are upper-case hex digits. One query family covers all 22^3 and 22^6 codes."
 )
-BOUNDS = {"quick": dict(int2name="0 <= i < j <= 10^6, 30 s per condition", hex="all 3- and 6-digit codes over 0-9a-fA-F, with and without '#'"), "thorough": dict(int2name="0 <= i < j <= 10^7, 120 s per condition")}
+BOUNDS = {"quick": dict(int2name="0 <= i < j <= 10^6, 30 s per condition", hex="all 3- and 6-digit codes over 0-9a-fA-F, with and without '#'; two-conversion histories 3-then-6 and 6-then-3 digits (6-digit code over 0-9a-f in quick)"), "thorough": dict(int2name="0 <= i < j <= 10^7, 120 s per condition")}
 OUTSIDE = ["indices above the stated bound", "non-hex input (undocumented)"]
 ASSUMPTIONS = ["CrossHair's model of int / str / chr", "Engine A: int(s, 16) modelled per character class; str.upper() modelled for ASCII"]
 
